@@ -401,6 +401,8 @@ async def _wait_for_depletion(
     # Notify all the workers to finish now. Wake them up if they are waiting in the queue-getting.
     for stream in streams.values():
         await stream.backlog.put(EOS.token)
+    if veriftrace.enabled:
+        veriftrace.emit('q.depleting', streams=len(streams))
 
     # Wait for the queues to be depleted, but only if there are some workers running.
     # Continue with the tasks termination if the timeout is reached, no matter the queues.
